@@ -77,7 +77,12 @@ HISTORIES.append(
      "v2": {"d.py": "def f() -> str:\n    return 'a'\n"},
      "post": [{"m.py": "from d import f\nx: int = f()\ny: str = f()\n"}],
      "targets": ["m.py", "d.py"], "sccs": [["d"], ["m"]]})
-QUICK_HISTORIES = ["revert-after-crash", "one-error-changes", "dep-interface-changes"]
+HISTORIES.append(
+    {"name": "touch-and-edit",   # d gets a new mtime but the same content: validate_meta rewrites its meta while loading
+     "v1": {"d.py": "def f() -> int:\n    return 1\n", "m.py": "from d import f\nx: int = f()\n"},
+     "v2": {"d.py": "def f() -> int:\n    return 1\n", "m.py": "from d import f\nx: str = f()\n"},
+     "targets": ["m.py", "d.py"], "sccs": [["d"], ["m"]], "quick_configs": [("sqlite", "seq"), ("fs", "par")]})
+QUICK_HISTORIES = ["touch-and-edit", "revert-after-crash", "one-error-changes", "dep-interface-changes"]
 
 CONFIGS = [("fs", "seq"), ("fs", "par"), ("sqlite", "seq"), ("sqlite", "par")]
 
@@ -160,6 +165,11 @@ def per_process(evs: list[dict[str, Any]]) -> dict[tuple[str, int], list[dict[st
 NAME_RE = re.compile(r"^(?P<mod>.+?)\.(?P<rec>data|meta|meta_ex)\.(ff|json)$")
 
 
+def op_ok(e: dict[str, Any]) -> bool:
+    """Did the completed operation take effect (a remove of a missing entry counts: the entry is absent)."""
+    return bool(e.get("ok", True)) or e.get("raised") == "FileNotFoundError"
+
+
 def norm_op(e: dict[str, Any]) -> str:
     """Store operation -> model step name, e.g. 'WMeta m' / 'CommitM m' / 'CommitAll'."""
     k, name = e["kind"], e["name"]
@@ -195,7 +205,7 @@ def f2_window(case: dict[str, Any], evs: list[dict[str, Any]]) -> str | None:
         pending: list[tuple[str, str]] = []
         durable: list[tuple[str, str]] = []
         for e in ops:
-            if e["kind"] == "write" and not e.get("ok", True):
+            if e["kind"] in ("write", "remove") and not op_ok(e):
                 continue
             kind, _, mod = norm_op(e).partition(" ")
             if store == "fs":
@@ -278,15 +288,23 @@ class Setup:
             self.problems.append(f"fault-free warm run differs from cold: {self.ref_out} vs {self.cold}")
         shutil.rmtree(ref, ignore_errors=True)
 
-    def cases(self, pairs: bool, both_scopes: bool) -> list[dict[str, Any]]:
+    def cases(self, pairs: bool, both_scopes: bool, seed: int = 0) -> list[dict[str, Any]]:
+        """Deterministic per (history, configuration, seed): positions are identified by (process role, op kind,
+        entry name, occurrence) -- unnamed commits by the last named op before them -- never by a global index
+        or a worker number."""
         out: list[dict[str, Any]] = []
         procs = per_process(self.ref_ops)
         common = {"history": self.hist["name"], "store": self.store, "mode": self.mode}
-        k = 0
+        k = seed
+        seen: set[tuple] = set()
         for (role, w), ops in sorted(procs.items()):
             for i, e in enumerate(ops):
                 whens = ["before"] + (["after"] if i == len(ops) - 1 else [])
                 for when in whens:
+                    ident = (role, e["kind"], e["name"], e.get("anchor", ""), e["occ"], when)
+                    if ident in seen:      # two workers at the same position of the same protocol point
+                        continue
+                    seen.add(ident)
                     scopes = ["group"]
                     if role == "worker":
                         scopes = ["group", "process"] if both_scopes else [["group", "process"][k % 2]]
@@ -294,8 +312,8 @@ class Setup:
                     for scope in scopes:
                         out.append(dict(common, fault="crash", pos=[role, i if when == "before" else i + 1, len(ops)],
                                         crash={"role": role, "kind": e["kind"], "name": e["name"], "occ": e["occ"],
-                                               "when": when, "scope": scope}))
-        writes = [[e["role"], e["kind"], e["name"], e["occ"]] for e in self.ref_ops if e["kind"] == "write"]
+                                               "anchor": e.get("anchor", ""), "when": when, "scope": scope}))
+        writes = [[e["role"], e["kind"], e["name"], e["occ"]] for e in self.ref_ops if e["kind"] in ("write", "remove")]
         for wv in writes:
             out.append(dict(common, fault="fail", fail=[wv]))
         if pairs:
@@ -314,16 +332,37 @@ class Setup:
         st2, out2 = run_mypy(d, self.store, self.mode, self.hist["targets"], spec)
         tr = read_trace(spec["trace"])
         later = []
+        warm_trace: list[dict[str, Any]] | None = None
         for k, edit in enumerate([{}] + self.hist.get("post", [])):
             write_files(d, edit, T2 + 1000 * k)
             if k == 0 and self.hist.get("skip_warm"):
                 later.append(self.colds[0])
                 continue
-            st3, out3 = run_mypy(d, self.store, self.mode, self.hist["targets"])
+            wspec = None
+            if k == 0:
+                wspec = {"trace": os.path.join(self.dir, f"case{idx}.warm.trace")}
+            st3, out3 = run_mypy(d, self.store, self.mode, self.hist["targets"], wspec)
             later.append(canon(st3, out3))
-        res = {"case": case, "run2": {"status": st2, "tail": out2[-300:]}, "warm": later[0], "later": later,
+            if wspec is not None:
+                warm_trace = read_trace(wspec["trace"])
+                try:
+                    os.remove(wspec["trace"])
+                except OSError:
+                    pass
+        res = {"case": case, "warm_trace": warm_trace, "run2": {"status": st2, "tail": out2[-300:]}, "warm": later[0], "later": later,
                "trace": tr, "injected": (st2 in (70, -9, 137, 2) if case["fault"] == "crash"
                                          else any(e.get("injected") for e in tr))}
+        if not res["injected"] and not case.get("_retried"):
+            # e.g. the second of two failing writes is never attempted because the first one made the code bail,
+            # or a position was not reached under this run's worker schedule: try once more, then count
+            shutil.rmtree(d, ignore_errors=True)
+            try:
+                os.remove(spec["trace"])
+            except OSError:
+                pass
+            r2 = self.run_case(idx, dict(case, _retried=True))
+            r2["case"] = case
+            return r2
         shutil.rmtree(d, ignore_errors=True)
         try:
             os.remove(spec["trace"])
@@ -351,8 +390,9 @@ From Gen Require Import CacheProtocol.
 Import ListNotations.
 """
 
-STEP_RE = re.compile(r"(SRmMeta|SRmEx|SData|SMeta|SEx|SCommitM) (\d+)|SCommitAll")
-STEP_NAME = {"SRmMeta": "RmMeta", "SRmEx": "RmEx", "SData": "WData", "SMeta": "WMeta", "SEx": "WEx", "SCommitM": "CommitM"}
+STEP_RE = re.compile(r"(SRmMeta|SRmEx|SData|SMeta|SEx|SCommitM|STouchMeta) (\d+)|SCommitAll")
+STEP_NAME = {"SRmMeta": "RmMeta", "SRmEx": "RmEx", "SData": "WData", "SMeta": "WMeta", "SEx": "WEx", "SCommitM": "CommitM",
+             "STouchMeta": "WMeta"}
 
 
 def parse_steps(txt: str, names: list[str]) -> list[str]:
@@ -375,6 +415,22 @@ def module_ops(ops: list[dict[str, Any]]) -> list[str]:
     return out
 
 
+def without_touch(ops: list[dict[str, Any]]) -> tuple[list[str], list[dict[str, Any]]]:
+    """(modules whose meta validate_meta rewrote while loading, the remaining operations)."""
+    touch: list[str] = []
+    rest: list[dict[str, Any]] = []
+    seen: set[str] = set()
+    for e in ops:
+        kind, _, mod = norm_op(e).partition(" ")
+        if kind == "WMeta" and mod not in seen:
+            touch.append(mod)
+            continue
+        if kind in ("WData", "WEx", "RmMeta", "RmEx", "CommitM", "WMeta"):
+            seen.add(mod)
+        rest.append(e)
+    return touch, rest
+
+
 def infer_shape(s: Setup) -> tuple[str, list[str], dict[tuple[str, int], Any]] | None:
     """SCC / batch structure of the traced fault-free run, per process, from the known SCC partition of the
     history and the order of first appearance in the trace.  Returns (coq shape expr per process ...)."""
@@ -383,7 +439,7 @@ def infer_shape(s: Setup) -> tuple[str, list[str], dict[tuple[str, int], Any]] |
     procs = per_process(s.ref_ops)
     shapes: dict[tuple[str, int], Any] = {}
     for pk, ops in procs.items():
-        mops = module_ops(ops)
+        mops = module_ops(without_touch(ops)[1])
         if pk[0] == "coord" and s.mode == "par":
             continue
         if s.mode == "seq":
@@ -436,6 +492,122 @@ def coq_nat_list(xs: Any, names: list[str]) -> str:
     return "[" + "; ".join(coq_nat_list(x, names) for x in xs) + "]"
 
 
+def split_touch(ops: list[dict[str, Any]]) -> list[tuple[str, str, bool]]:
+    """Completed module operations of ONE process as (model step constructor, module, took effect); a meta write
+    of a module that the process has not touched before is validate_meta's rewrite (STouchMeta)."""
+    out: list[tuple[str, str, bool]] = []
+    seen: set[str] = set()
+    for e in ops:
+        o = norm_op(e)
+        kind, _, mod = o.partition(" ")
+        if kind == "CommitAll":
+            out.append(("SCommitAll", "", True))
+            continue
+        if kind not in ("WData", "WMeta", "WEx", "RmMeta", "RmEx", "CommitM"):
+            continue
+        if kind == "WMeta" and mod not in seen:
+            out.append(("STouchMeta", mod, op_ok(e)))
+            continue          # a touched module stays "unseen": it may still be processed later in the run
+        seen.add(mod)
+        ctor = {"WData": "SData", "WMeta": "SMeta", "WEx": "SEx", "RmMeta": "SRmMeta", "RmEx": "SRmEx", "CommitM": "SCommitM"}[kind]
+        out.append((ctor, mod, op_ok(e)))
+    return out
+
+
+def processed_modules(evs: list[dict[str, Any]]) -> set[str]:
+    mods: set[str] = set()
+    for _pk, ops in per_process(evs).items():
+        for ctor, mod, _ok in split_touch(ops):
+            if ctor in ("SData", "SMeta", "SEx", "SRmMeta", "SRmEx"):
+                mods.add(mod)
+    return mods
+
+
+def real_shard(store: str, mod: str) -> int:
+    if store != "sqlite":
+        return 0
+    sys.path.insert(0, vlib.REPO)
+    try:
+        from mypy.util import hash_path_stem
+        from mypy.defaults import SQLITE_NUM_SHARDS
+        return int(hash_path_stem(mod.replace(".", os.sep) + ".meta.ff")) % int(SQLITE_NUM_SHARDS)
+    finally:
+        sys.path.pop(0)
+
+
+def outcome_correspondence(ctx: vlib.Ctx, setups: list[Setup]) -> None:
+    """C(2): for every fault case, the model (exec_step / durability / `trusted`, run on the store operations the
+    faulty run really completed) predicts which modules' cache entries the next run trusts; the real next run
+    must recheck exactly the SCCs that contain an untrusted module (observed from outside: a rechecked module
+    gets store writes, a module loaded from the cache gets none)."""
+    exprs: list[str] = []
+    meta: list[tuple[Setup, dict[str, Any], str]] = []
+    r1 = ("{| rd := Some {| d_if := 1; d_stamp := 1 |}; rm := Some {| m_of := 1; m_if := 1; m_stamp := 1 |}; "
+          "rx := Some {| x_of := 1 |} |}")
+    for s in setups:
+        if s.problems or s.hist.get("skip_warm"):
+            continue
+        names = sorted({m for scc in s.hist["sccs"] for m in scc})
+        ref_processed = processed_modules(s.ref_ops)
+        ref_written = {norm_op(e).split(" ")[1] for e in s.ref_ops if norm_op(e).startswith("WData ")}
+        shard = {m: real_shard(s.store, m) for m in names}
+        for r in getattr(s, "results", []):
+            if r.get("warm_trace") is None:
+                continue
+            procs = per_process(r["trace"])
+            for x in names:
+                steps: list[tuple[str, str, bool]] = []
+                for _pk, ops in procs.items():
+                    st = split_touch(ops)
+                    if any(mod == x and ctor != "SCommitM" for ctor, mod, _ in st):
+                        steps = st
+                        break
+                coq_steps = "[" + "; ".join(c if c == "SCommitAll" else f"{c} {names.index(mod)}" for c, mod, _ in steps
+                                            if c == "SCommitAll" or mod in names) + "]"
+                fls = "[" + "; ".join("false" if ok else "true" for c, mod, ok in steps if c == "SCommitAll" or mod in names) + "]"
+                ci = 2 if x in ref_processed else 1
+                if2 = 2 if x in ref_written else 1
+                shard_fn = "(fun m => nth m [" + "; ".join(str(shard[n]) for n in names) + "] 0)"
+                k = "SQL" if s.store == "sqlite" else "FS"
+                exprs.append(
+                    f"match trusted {ci} (run_proc (fun i => match i with 2 => {if2} | _ => 1 end) current_protocol {k} {shard_fn} "
+                    f"{names.index(x)} {ci} (fun i => nth i {fls} false) (fun i => 100 + i) 1000 {coq_steps} {r1}) "
+                    f"with Some _ => true | None => false end")
+                meta.append((s, r, x))
+    if not exprs:
+        return
+    res = ctx.eval_cases("outcome", MODEL_HEADER, exprs)
+    if res is None:
+        return
+    pred: dict[int, dict[str, bool]] = {}
+    keep: dict[int, tuple[Setup, dict[str, Any]]] = {}
+    for (s, r, x), v in zip(meta, res):
+        pred.setdefault(id(r), {})[x] = (v == "true")
+        keep[id(r)] = (s, r)
+    n_ok = n_untrusted = 0
+    for rid, (s, r) in keep.items():
+        p = pred[rid]
+        expect = set()
+        for scc in s.hist["sccs"]:
+            if any(not p[m] for m in scc):
+                expect |= set(scc)
+        real = processed_modules(r["warm_trace"]) & set(p)
+        ctx.add("evaluations", 1)
+        if expect:
+            n_untrusted += 1
+        if expect == real:
+            n_ok += 1
+            ctx.add("traces_validated_against_impl", 1)
+        else:
+            ctx.broke("C", "outcome", f"after {describe(r['case'])}: the model predicts the next run rechecks {sorted(expect)} "
+                      f"(trusted: {p}) but the real next run rechecked {sorted(real)}",
+                      {"case": r["case"], "predicted_trusted": p, "real_rechecked": sorted(real),
+                       "completed_ops": [[e["role"], e["w"], norm_op(e), op_ok(e)] for e in r["trace"]]})
+    ctx.cov["outcome_cases_with_untrusted_module"] = n_untrusted
+    ctx.log(f"C(2): {n_ok}/{len(keep)} fault cases: modules rechecked by the real next run = modules the model predicts untrusted "
+            f"({n_untrusted} cases with at least one untrusted module)")
+
+
 def trace_correspondence(ctx: vlib.Ctx, setups: list[Setup]) -> None:
     """C(1): the real store-operation sequence of every process of the traced fault-free run equals the
     sequence the generated model emits for the same SCC / batch structure (data writes the real run
@@ -453,15 +625,23 @@ def trace_correspondence(ctx: vlib.Ctx, setups: list[Setup]) -> None:
         procs = per_process(s.ref_ops)
         for pk, shape in shapes.items():
             real = module_ops(procs[pk])
+            touch = without_touch(procs[pk])[0]
+            if any(t not in names for t in touch):
+                ctx.broke("C", "trace", f"{s.hist['name']}/{s.store}/{s.mode}: meta of an unknown module rewritten: {touch}")
+                continue
+            if touch:
+                ctx.add("traces_with_validate_meta_rewrite", 1)
+                ctx.sample({"history": s.hist["name"], "store": s.store, "mode": s.mode, "process": list(pk),
+                            "validate_meta_rewrites": touch, "trace": real})
             if s.mode == "seq":
-                exprs.append(f"gen_seq current_protocol {coq_nat_list(shape, names)}")
+                exprs.append(f"gen_load {coq_nat_list(touch, names)} ++ gen_seq current_protocol {coq_nat_list(shape, names)}")
             else:
                 exprs.append(f"gen_worker current_protocol {coq_nat_list(shape, names)}")
             meta.append((s, pk, names, real))
         if s.mode == "par":
             for pk, ops in procs.items():
                 if pk[0] == "coord":
-                    cm = module_ops(ops)
+                    cm = module_ops(without_touch(ops)[1])
                     if any(o != "CommitAll" for o in cm):
                         ctx.broke("C", "trace", f"{s.hist['name']}/{s.store}/{s.mode}: the coordinator wrote module records: {cm}")
     if not exprs:
@@ -511,7 +691,7 @@ def search(ctx: vlib.Ctx, hist_names: list[str], configs: list[tuple[str, str]],
                 ctx.broke("S", f"setup {s.hist['name']}/{s.store}/{s.mode}", p)
             if s.problems:
                 continue
-            for i, c in enumerate(s.cases(pairs, both_scopes)):
+            for i, c in enumerate(s.cases(pairs, both_scopes, ctx.seed)):
                 jobs.append((s, i, c))
         t = time.time()
         par_jobs = max(4, vlib.NPROC - 2)
@@ -529,18 +709,19 @@ def search(ctx: vlib.Ctx, hist_names: list[str], configs: list[tuple[str, str]],
 def judge(ctx: vlib.Ctx, results: list[tuple[Setup, dict[str, Any]]]) -> None:
     n_inj = 0
     dist: dict[str, int] = {}
+    unreached: list[dict[str, Any]] = []
     for s, r in results:
         case = r["case"]
         ctx.add("evaluations", 2)
         dist[f"{case['store']}/{case['mode']}/{case['fault']}"] = dist.get(f"{case['store']}/{case['mode']}/{case['fault']}", 0) + 1
         if r["injected"]:
             n_inj += 1
-        elif case["mode"] == "par" and case["fault"] == "crash" and case["crash"]["kind"] == "commit":
-            # the n-th unnamed commit of "a worker" is not a stable identity when the scheduler assigns the
-            # SCCs differently from the traced run: the position is skipped (counted), not an alarm
-            ctx.add("positions_not_reached_other_schedule", 1)
         else:
-            ctx.broke("C", "fault not injected", json.dumps(case)[:400] + " run2=" + json.dumps(r["run2"])[:300])
+            # not reached even on the retry: counted; the outcome of the (then fault-free or partly faulty) run is
+            # still judged.  Legitimate causes: the 2nd write of a failing pair is never attempted once the 1st
+            # failed; a position in a parallel build depends on the schedule.  Alarm only if this is systematic.
+            ctx.add("faults_not_reached", 1)
+            unreached.append(case)
         ctx.add("evaluations", len(r["later"]) - 1)
         bad = [k for k, (w, c) in enumerate(zip(r["later"], s.colds)) if w != c]
         r["ok"] = not bad
@@ -559,11 +740,15 @@ def judge(ctx: vlib.Ctx, results: list[tuple[Setup, dict[str, Any]]]) -> None:
             key = f"F2:{case['store']}-{case['mode']}:{win}"
         else:
             fd = (f"crash-{case['crash']['when']}-{norm_op(case['crash'])}-in-{case['crash']['role']}" if case["fault"] == "crash"
-                  else "fail-" + "+".join(norm_op({"kind": "write", "name": f[2]}) for f in case["fail"]))
+                  else "fail-" + "+".join(norm_op({"kind": f[1], "name": f[2]}) for f in case["fail"]))
             key = f"C04:{case['store']}-{case['mode']}:{case['history']}:{fd}".replace(" ", "_")
         ctx.violation(key, f"after {describe(case)} a later complete run reports {r['warm']} but a cold run on the same files reports {s.cold}",
                       {"case": case, "history": s.hist, "warm": r["warm"], "cold": s.cold, "run2": r["run2"],
                        "completed_ops": [[e["role"], e["w"], norm_op(e), e.get("ok", True)] for e in r["trace"]]})
+    single_unreached = [c for c in unreached if not (c["fault"] == "fail" and len(c["fail"]) > 1)]
+    if len(single_unreached) > max(3, len(results) // 10):
+        ctx.broke("C", "faults not injected", f"{len(single_unreached)} of {len(results)} single faults were never reached: "
+                  + json.dumps(single_unreached[:3])[:600])
     ctx.cov["distinct_nontrivial"] = n_inj
     ctx.cov["fault_distribution"] = dist
 
@@ -593,7 +778,7 @@ def data_window(case: dict[str, Any], evs: list[dict[str, Any]]) -> bool:
         pending: list[tuple[str, str]] = []
         durable: list[tuple[str, str]] = []
         for e in ops:
-            if e["kind"] == "write" and not e.get("ok", True):
+            if e["kind"] in ("write", "remove") and not op_ok(e):
                 continue
             kind, _, mod = norm_op(e).partition(" ")
             if store == "fs":
@@ -622,7 +807,7 @@ def describe(case: dict[str, Any]) -> str:
         return (f"history {case['history']} ({case['store']} store, {case['mode']}): {who} killed {c['when']} "
                 f"`{norm_op(c)}` (op {case['pos'][1]}/{case['pos'][2]} of the {c['role']})")
     return (f"history {case['history']} ({case['store']} store, {case['mode']}): write(s) "
-            + ", ".join(norm_op({"kind": "write", "name": f[2]}) for f in case["fail"]) + " fail (return False)")
+            + ", ".join(norm_op({"kind": f[1], "name": f[2]}) for f in case["fail"]) + " fail (write returns False / remove raises)")
 
 
 def run(ctx: vlib.Ctx) -> None:
@@ -661,6 +846,7 @@ def run(ctx: vlib.Ctx) -> None:
     setups = search(ctx, names, CONFIGS, pairs=not ctx.quick, both_scopes=not ctx.quick)
     if proto is not None:
         trace_correspondence(ctx, setups)
+        outcome_correspondence(ctx, setups)
     n_f2 = sum(1 for v in ctx.violations if v.key.startswith("F2"))
     if proved and safe is False and n_f2 == 0:
         # the model refutes the property on the generated order, but no witness was reproduced on the implementation
